@@ -499,7 +499,7 @@ fn sig_for(c: &Case, canonical: bool) -> Sig {
     });
     // --- skip-NaN read-only
     with_repr!(kind, &c.shape, &cn.nan, &l, 777.0, |a| {
-        dims!(a, ro_nan(&a, &|x: &f64| if x.is_nan() { -1e9 } else { *x }, "f64nan", &mut out))
+        dims!(a, ro_nan(&a, &|x: &f64| if f64::is_nan(*x) { -1e9 } else { *x }, "f64nan", &mut out))
     });
     with_repr!(kind, &c.shape, &cn.opt, &l, Some(-99), |a| {
         dims!(a, ro_nan(&a, &|x: &Option<i32>| x.map(|v| v as f64).unwrap_or(-1e9), "opt", &mut out))
@@ -543,7 +543,7 @@ fn sig_for(c: &Case, canonical: bool) -> Sig {
                     let mut h = Host::new(&c.shape, &cn.nan, &l, 777.0);
                     let r = h.view_mut().quantile_axis_skipnan_mut(Axis(ax), n64(*q), &Linear);
                     out.push((format!("f64nan:quantile_axis_skipnan_mut_{}_q{}", ax, qi), match r {
-                        Ok(x) => Val::F(x.iter().map(|v| if v.is_nan() { -1e9 } else { *v }).collect()),
+                        Ok(x) => Val::F(x.iter().map(|v| if f64::is_nan(*v) { -1e9 } else { *v }).collect()),
                         Err(e) => Val::S(format!("{:?}", e)),
                     }));
                     let mut h = Host::new(&c.shape, &cn.opt, &l, Some(-99));
@@ -553,7 +553,7 @@ fn sig_for(c: &Case, canonical: bool) -> Sig {
                         Err(e) => Val::S(format!("{:?}", e)),
                     }));
                 }
-                let keyf = |x: &f64| if x.is_nan() { -1e9 } else { *x };
+                let keyf = |x: &f64| if f64::is_nan(*x) { -1e9 } else { *x };
                 let mut h = Host::new(&c.shape, &cn.nan, &l, 777.0);
                 let mut v = h.view_mut();
                 let r = v.map_axis_skipnan_mut(Axis(ax), |lane| {
@@ -604,7 +604,7 @@ fn sig_for(c: &Case, canonical: bool) -> Sig {
                     mut_i32_1d(&|| mk().into_dimensionality::<Ix1>().unwrap(), &mut out);
                 }
             });
-            mutating!(&cn.nan, 777.0, |mk| mut_nan(&mk, &|x: &f64| if x.is_nan() { -1e9 } else { *x }, "f64nan", &mut out));
+            mutating!(&cn.nan, 777.0, |mk| mut_nan(&mk, &|x: &f64| if f64::is_nan(*x) { -1e9 } else { *x }, "f64nan", &mut out));
             mutating!(&cn.opt, Some(-99), |mk| mut_nan(&mk, &|x: &Option<i32>| x.map(|v| v as f64).unwrap_or(-1e9), "opt", &mut out));
         }
     }
@@ -644,7 +644,7 @@ fn compare(canon: &Sig, got: &Sig, c: &Case, lx: &mut Local) {
         };
         compared += 1;
         let ok = match (v, w) {
-            (Val::F(a), Val::F(b)) => a.len() == b.len() && a.iter().zip(b).all(|(x, y)| (x.is_nan() && y.is_nan()) || x == y || (x.is_finite() && y.is_finite() && (x - y).abs() <= 1e-10 + 1e-10 * x.abs().max(y.abs()))),
+            (Val::F(a), Val::F(b)) => a.len() == b.len() && a.iter().zip(b).all(|(x, y)| (f64::is_nan(*x) && f64::is_nan(*y)) || x == y || (x.is_finite() && y.is_finite() && (x - y).abs() <= 1e-10 + 1e-10 * x.abs().max(y.abs()))),
             (a, b) => a == b,
         };
         if !ok {
@@ -668,6 +668,12 @@ fn outcome<D: Dimension, E: std::fmt::Debug>(r: Result<Array<i32, D>, E>) -> Str
 
 /// Every fallible entry point on one representation of an i32 array; `make` builds a fresh copy.
 fn fallible<S: DataMut<Elem = i32>, D: Dimension + RemoveAxis>(make: &dyn Fn() -> ArrayBase<S, D>, out: &mut Vec<(String, String)>) {
+    fallible_with(make, false, out)
+}
+
+/// `rev_qs`: the request list of the bulk form is handed over as a reversed view of an array holding
+/// it backwards (logically the same list; another representation of the *argument*).
+fn fallible_with<S: DataMut<Elem = i32>, D: Dimension + RemoveAxis>(make: &dyn Fn() -> ArrayBase<S, D>, rev_qs: bool, out: &mut Vec<(String, String)>) {
     let nd = make().ndim();
     let qs: [f64; 6] = [-0.5, -1e-300, 0.0, 0.5, 1.0, 1.0000000000000002];
     for ax in 0..nd {
@@ -675,9 +681,15 @@ fn fallible<S: DataMut<Elem = i32>, D: Dimension + RemoveAxis>(make: &dyn Fn() -
             let r = guarded(|| make().quantile_axis_mut(Axis(ax), n64(q), &Nearest).map(|x| x.into_dyn()));
             out.push((format!("quantile_axis_mut(axis {}, q {:e})", ax, q), match r { Ok(r) => outcome(r), Err(m) => format!("panic: {}", m) }));
         }
-        for ql in [vec![], vec![0.5], vec![0.5, 2.0], vec![-1.0, 0.5], vec![0.25, 0.75]] {
+        for ql in [vec![], vec![0.5], vec![0.5, 2.0], vec![-1.0, 0.5], vec![0.25, 0.75], vec![-1.0, 0.5, 2.0], vec![3.0, 1.0, -2.0]] {
             let qa = Array1::from(ql.iter().map(|&q| n64(q)).collect::<Vec<_>>());
-            let r = guarded(|| make().quantiles_axis_mut(Axis(ax), &qa, &Nearest).map(|x| x.into_dyn()));
+            let backwards = Array1::from(ql.iter().rev().map(|&q| n64(q)).collect::<Vec<_>>());
+            let r = if rev_qs {
+                let view = backwards.slice(ndarray::s![..;-1]);
+                guarded(|| make().quantiles_axis_mut(Axis(ax), &view, &Nearest).map(|x| x.into_dyn()))
+            } else {
+                guarded(|| make().quantiles_axis_mut(Axis(ax), &qa, &Nearest).map(|x| x.into_dyn()))
+            };
             out.push((format!("quantiles_axis_mut(axis {}, {:?})", ax, ql), match r { Ok(r) => outcome(r), Err(m) => format!("panic: {}", m) }));
         }
     }
@@ -761,7 +773,7 @@ fn main() {
     let eshapes: Vec<Vec<usize>> = vec![vec![0], vec![1], vec![3], vec![0, 3], vec![3, 0], vec![2, 2], vec![2, 0, 2], vec![1, 2, 2]];
     rep.run_sub(
         "fallible-calls-across-representations",
-        "shapes (0), (1), (3), (0,3), (3,0), (2,2), (2,0,2), (1,2,2) of i32 x {quantile_axis_mut at q in {-0.5, -1e-300, 0, 0.5, 1, 1+ulp}, quantiles_axis_mut with empty / valid / partly invalid request lists, on every axis; min, max, argmin, argmax, mean, weighted_sum / sq_l2_dist / count_eq with itself}: the outcome (value, or which error, or a panic) is the same for the dynamic-dimension owned array, its static-dimension twin, a shared (ArcArray) handle, a column-major copy and a view",
+        "shapes (0), (1), (3), (0,3), (3,0), (2,2), (2,0,2), (1,2,2) of i32 x {quantile_axis_mut at q in {-0.5, -1e-300, 0, 0.5, 1, 1+ulp}, quantiles_axis_mut with empty / valid / partly invalid request lists, on every axis; min, max, argmin, argmax, mean, weighted_sum / sq_l2_dist / count_eq with itself}: the outcome (value, or which error, or a panic) is the same for the dynamic-dimension owned array, its static-dimension twin, a shared (ArcArray) handle, a column-major copy and a view; and for request lists handed over as reversed views",
         eshapes.into_iter(),
         |shape, lx| {
             lx.nontrivial(true);
@@ -775,6 +787,9 @@ fn main() {
                 let mut o = Vec::new();
                 fallible(&|| base.clone().into_shared(), &mut o);
                 sets.push(("dynamic shared".into(), o));
+                let mut o = Vec::new();
+                fallible_with(&|| base.clone(), true, &mut o);
+                sets.push(("dynamic owned, request lists as reversed views".into(), o));
                 let mut o = Vec::new();
                 fallible(&|| CowArray::from(base.view()), &mut o);
                 sets.push(("dynamic copy-on-write over a view".into(), o));
